@@ -78,6 +78,21 @@ example : create? (40 : ℝ) 40 4 (some 1) (some 3) (1 / 500) Dyn.none 0 false n
            early := false, clim := none, ownExact := true } := by
   simp [create?]
 
+/-- the configuration of the README (kp 40, ki 40, kd 4, slewmax 3, imax 1, 2 ms) satisfies the hypotheses used below:
+stateless actuator (so the owned slots are Euler-advanced), positive time step, non-negative limits -/
+noncomputable def readmeCfg : Cfg ℝ :=
+  { kp := 40, ki := 40, kd := 4, imax := some (1 / 40), slew := some 3, dt := 1 / 500, dyn := Dyn.none, tau := 0,
+    early := false, clim := none, ownExact := true }
+
+example : OwnEuler readmeCfg ∧ readmeCfg.imax = some (1 / 40) ∧ (0 : ℝ) ≤ 1 / 40 ∧ readmeCfg.ki ≠ 0 ∧ (0 : ℝ) < readmeCfg.dt ∧
+    readmeCfg.slew = some 3 ∧ (0 : ℝ) ≤ 3 := by
+  refine ⟨Or.inl (by simp [readmeCfg]), rfl, by norm_num, by simp [readmeCfg], by simp [readmeCfg], rfl, by norm_num⟩
+
+/-- and the clamp really bites: a large error saturates the integral at `i_max` -/
+example : integralOf readmeCfg { actI := 0, actP := 0 } 100 = 1 / 40 := by
+  simp [integralOf, hasI, readmeCfg, clip]
+  norm_num
+
 /-- **slew limit**: whenever a previous setpoint exists (`time > 0`), the setpoint used by the controller is within
 `slewmax · timestep` of the stored previous setpoint -/
 theorem setpoint_slew_bounded (c : Cfg ℝ) (s : St ℝ) (i : In ℝ) (early : Bool) (r : ℝ) (hr : c.slew = some r)
@@ -196,6 +211,10 @@ theorem stress_zero_when_straight (b : Body ℝ) (hp : Bool) (h : Straight b) :
   simp only [stressNoPull] at hn
   simp only [hn]
   exact rotVecQuat_zero _ _ _ _
+
+/-- non-vacuity: frame orientation and joint rotation that cancel (here both the identity) -/
+example : Straight { bq := (1, 0, 0, 0), q0 := (1, 0, 0, 0), q := (1, 0, 0, 0), stiff := (3, 2, 2, 0.1), xquat := (1, 0, 0, 0) } :=
+  ⟨1, one_pos, by simp [quatDiff, cable_QuatDiff]⟩
 
 /-- the loop of `Cable::Compute` produces only zero stresses and zero torques when every stress it evaluates is zero -/
 theorem loopFrom_zero (hasPrev : Bool) (t : Body ℝ × V ℝ × V ℝ) (rest : List (Body ℝ × V ℝ × V ℝ))
